@@ -203,6 +203,7 @@ def life_addr(ver, v0, v, how):
 
 
 def life_net(ver, v0, p0, v, p, how):
+    """every observer is read after EVERY mutator call (so that anything memoised is filled in between the steps)"""
     import netaddr
     n = netaddr.IPNetwork((v0, p0), version=ver)
     observe(n)
@@ -211,21 +212,36 @@ def life_net(ver, v0, p0, v, p, how):
         how = 0            # a /0 has no neighbour of its own size
     if how == 0:
         n.value = v
+        observe(n)
         n.prefixlen = p
     elif how == 1:
         n.prefixlen = p
+        observe(n)
         n.value = v
     elif how == 2:
         n.value = v
+        observe(n)
         n.netmask = netaddr.IPAddress((2 ** w - 1) ^ ((1 << (w - p)) - 1), ver)
     elif how == 3:
         n.__setstate__((v, p, ver))
+    elif how == 5:         # a single assignment to .value, the prefix stays
+        n.value = v
+        p = p0
+    elif how == 6:         # a single assignment to .prefixlen, the address stays
+        n.prefixlen = p
+        v = v0
+    elif how == 7:         # the value assigned twice
+        n.value = v ^ 1
+        observe(n)
+        n.value = v
+        p = p0
     else:
         # reach (v, p) through += / -= from an aligned neighbour of the same prefix
         size = 1 << (w - p)
         base = v - v % size
         k = 1 if base + 2 * size <= 2 ** w else -1
         n.value = base + k * size
+        observe(n)
         n.prefixlen = p
         observe(n)
         if k == 1:
@@ -233,8 +249,9 @@ def life_net(ver, v0, p0, v, p, how):
         else:
             n += 1
         v = base
-    return diff(observe(n), observe(netaddr.IPNetwork((v, p), version=ver)),
-                "IPNetwork after %s" % ["value=,prefixlen=", "prefixlen=,value=", "value=,netmask=", "setstate", "+=/-="][how])
+    names = {0: "value=,prefixlen=", 1: "prefixlen=,value=", 2: "value=,netmask=", 3: "setstate", 4: "+=/-=", 5: "value=",
+             6: "prefixlen=", 7: "value=,value="}
+    return diff(observe(n), observe(netaddr.IPNetwork((v, p), version=ver)), "IPNetwork after %s" % names[how])
 
 
 def life_glob(g0, g1, how):
@@ -279,6 +296,7 @@ def life_eui(ver, v0, v, dname, how):
         nw = ver // ws
         for i in range(nw):
             e[i] = (v >> (ws * (nw - 1 - i))) & ((1 << ws) - 1)
+            observe(e)
     else:
         e.__setstate__((v, ver, e.dialect))
     f = netaddr.EUI(v, version=ver, dialect=d)
@@ -489,7 +507,7 @@ def cases(rng, tier, classes):
             yield ("life", ["atomic", "addr", ver, v], "life_atomic")
         if "net" in classes:
             p, p0 = rng.randrange(w + 1), rng.randrange(w + 1)
-            yield ("life", ["net", ver, v0, p0, v, p, rng.randrange(5)], "life_net")
+            yield ("life", ["net", ver, v0, p0, v, p, rng.randrange(8)], "life_net")
             yield ("life", ["alias_net", ver, v, p], "life_alias")
             yield ("life", ["atomic", "net", ver, v, p], "life_atomic")
         if "range" in classes:
